@@ -30,7 +30,7 @@ func genPyramid(repo string) {
 		strings.Contains(src, "octidx:=((hresCoord[2]&1)<<2)+((hresCoord[1]&1)<<1)+(hresCoord[0]&1)"), src != "")
 	ex := ""
 	if fd := dr.funcDecl("Mutation", "Execute"); fd != nil {
-		ex = squash(dr.src(fd))
+		ex = strings.ReplaceAll(squash(dr.src(fd)), `dvid.VerifYield("downres.Execute")`, "") // the guarded yield hook is not part of the shape
 	}
 	emit("downresChainsLevels", "Execute feeds the blocks computed at one level as the changed blocks of the next, for every level below the maximum",
 		strings.Contains(ex, "bm:=m.hiresCache") && strings.Contains(ex, "forscale:=uint8(0);scale<m.d.GetMaxDownresLevel();scale++{bm,err=m.d.StoreDownres(m.v,scale,bm)"), ex != "")
